@@ -988,6 +988,35 @@ def main(tier):
                    "other simulations / variables are written into columns that were never created" % (m["n"], nvar, count),
                    key="R19.14|%s|%s" % (f.name, m["n"]))
     chk.floor("R19.14", n14, 8)
+    # R19.15: identifiers handed to a calculator are validated before anything is created.  A calculator that keeps a list of variable
+    # identifiers (`VectorInt _iuids`, filled by a setter from names the caller typed) must test them in `_check` (isUIDDefined /
+    # getColIdxByUID / a comparison with 0): `migrate(dbin, dbout, "nosuchname")` created a variable from the identifier -1 and
+    # reported success.
+    n15 = 0
+    for K in sorted(prog.classes):
+        flds = [fl["n"] for fl in prog.classes[K].get("fields", []) if fl["t"].replace(" ", "") in ("VectorInt", "VectorNumT<int>") and "iuid" in fl["n"].lower()]
+        chks = [f for f in prog.fns(K + "::_check") if f.body is not None]
+        if not flds or not chks:
+            continue
+        for fl in flds:
+            n15 += 1
+            f = chks[0]
+            ok = False
+            for x in f.walk():
+                if x["k"] in ("MCall", "Call") and (x.get("callee") or "").split("::")[-1] in ("isUIDDefined", "getColIdxByUID", "isUIDValid", "getColIdxsByUID") and \
+                        any(z["k"] == "MemberExpr" and z.get("n") == fl for a in call_args(x) if a is not None for z in walk(a)):
+                    ok = True
+                if x["k"] == "BinOp" and x.get("op") in ("<", ">=", "<=", ">") and any(z["k"] == "MemberExpr" and z.get("n") == fl for z in walk(x["c"][0])) and \
+                        x["c"][1] is not None and x["c"][1]["k"] == "Int":
+                    ok = True
+            why = {("CalcKrigingFactors", "_iuidFactors"): "filled by the only entry point, krigingFactors(), with getUIDsByLocator(ELoc::Z): identifiers "
+                   "the data base has just reported, not names typed by the caller"}.get((K, fl))
+            ok = ok or why is not None
+            chk.analysed(f)
+            chk.ob("R19.15", "%s::_check validates the identifiers of `%s`" % (K, fl), f.loc(), ok,
+                   detail=None if ok else "`%s` is only tested for emptiness: an identifier the data base does not hold (-1 for an unknown name) goes through, a "
+                   "variable is created from it and the calculation reports success" % fl, key="R19.15|%s|%s" % (K, fl))
+    chk.floor("R19.15", n15, 1)
     # R19.10 (rule K): the columns a calculation memorises, reads, writes and deletes are designated by their persistent identifiers,
     # never by a column index (uidkinds.py): after an earlier deletion the calculation would work on - and restore the roles of -
     # other columns than its own
